@@ -209,9 +209,14 @@ def judge_op(spec, codec, scenario, op, evs, probes):
     # ---- expected attempt sequence
     exp_n = 0
     final = None
+    elapsed = 0.0
     for i, o in enumerate(script):
         exp_n += 1
+        elapsed += o.get("lat", 0.0)
         if o.get("code") and pol and o["code"] in pol["codes"] and i + 1 < len(script):
+            if retry_T is not None and elapsed > retry_T:
+                final = {"code": None, "retry_deadline": True}     # (waits are 0 here: jitter script is all zeros)
+                break
             continue
         final = o
         break
@@ -241,6 +246,10 @@ def judge_op(spec, codec, scenario, op, evs, probes):
         if a["n"] > 1:
             _bump(probes, "retried_identical_payload")
     # ---- outcome
+    if final.get("retry_deadline"):
+        if outcome["k"] != "raise" or outcome.get("cls") != "RetryError":
+            return V("wrong_exception", f"the retry deadline {retry_T}s passed during the scripted outage; expected RetryError, got {outcome['k']} {outcome.get('cls')}")
+        return []
     if final.get("code"):
         exp = engine.CODE_TO_EXC[final["code"]].__name__
         if outcome["k"] != "raise" or outcome.get("cls") != exp:
